@@ -571,9 +571,17 @@ impl Storage {
             .expect("batch put should be ok");
         let tx_hash = tx.calc_tx_hash();
         let tx_index = u32::max_value();
-        let key = Key::TxHash(&tx_hash).into_vec();
-        let value = Value::Transaction(block_number, tx_index as TxIndex, tx);
-        batch.put_kv(key, value).expect("batch put should be ok");
+        // keep the position of a transaction which is already indexed by `filter_block`: the live cell keys
+        // are rebuilt from it when the cells are spent or rolled back
+        let indexed = matches!(
+            self.get_transaction(&tx_hash),
+            Some((_, stored_tx_index, _)) if stored_tx_index != tx_index as TxIndex
+        );
+        if !indexed {
+            let key = Key::TxHash(&tx_hash).into_vec();
+            let value = Value::Transaction(block_number, tx_index as TxIndex, tx);
+            batch.put_kv(key, value).expect("batch put should be ok");
+        }
         batch.commit().expect("batch commit should be ok");
     }
 
@@ -695,9 +703,12 @@ impl Storage {
                             generated_by_block_number,
                             generated_by_tx_index,
                             previous_tx,
-                        )) = self.get_transaction(&previous_tx_hash).or(txs
+                        )) = txs
                             .get(&previous_tx_hash)
-                            .map(|(tx_index, tx)| (block_number, *tx_index, tx.clone())))
+                            .map(|(tx_index, tx)| (block_number, *tx_index, tx.clone()))
+                            // a transaction of this block may already be stored by `add_fetched_tx`, without
+                            // its position
+                            .or_else(|| self.get_transaction(&previous_tx_hash))
                         {
                             let previous_output_index = input.previous_output().index().unpack();
                             if let Some(previous_output) =
